@@ -112,7 +112,7 @@ Section Spec.
       by (intros; eapply transition_acct; eauto).
     assert (Hd : forall s mi s', decrement_limit c tp s mi = Ok s' -> acct_same s s')
       by (intros; eapply decrement_limit_acct; eauto).
-    assert (Hl : forall s e, acct_same s (add_log s e)) by (intros; apply acct_same_rts_eq; reflexivity).
+    assert (Hl : forall s mi, acct_same s (add_log s (LOG_SIGDELIVER, N.of_nat mi, 0))) by (intros; apply acct_same_rts_eq; reflexivity).
     assert (Hg : forall s, acct_same s (set_sigp s None)) by (intros; apply acct_same_rts_eq; reflexivity).
     split; [|split; [|split]].
     - intros s mi ev dec s' H. eapply (trans_dec_G c tp acct_same); [apply acct_same_trans|exact Hs|exact Hd|exact H].
